@@ -9,6 +9,8 @@ from sa.facts import assignments_to, result_sites
 from sa.guards import GuardView, atom_of, in_loop, names_in, or_parts
 from sa.index import own_nodes
 from sa.report import Ctx
+
+from .common import generic_sweeps
 from sa.stutter import stutter_paths
 
 from .sat_common import SatRoles, check_add_sites, check_backtrack
@@ -38,6 +40,7 @@ def run(ctx: Ctx):
     check_backtrack(ctx, roles, "C02-O6")
     check_analyze_guard(ctx, roles)
     ctx.assume("conflict-only cycles terminate because consecutive conflicts strictly lower the decision level (not verified)")
+    generic_sweeps(ctx, skip_stutter_modules=("solvor/sat.py",))
 
 
 def check_stutter(ctx: Ctx):
